@@ -63,6 +63,7 @@ type Candidate struct {
 	Observe []ObsVal         `json:"observed,omitempty"`
 	Detail  string           `json:"detail,omitempty"`
 	Approx  bool             `json:"approximate_model,omitempty"`
+	Abstract bool            `json:"abstract,omitempty"` // the path used a stub or an uninterpreted function
 }
 
 type ObsVal struct {
@@ -407,7 +408,8 @@ func (st *State) concretize(t *Term) *Term {
 // ---------------------------------------------------------------- obligations
 
 func (st *State) modelCandidate(kind, label string) (Candidate, bool) {
-	c := Candidate{Harness: st.h.Name, Prop: st.h.Prop, Label: label, Kind: kind, Mode: st.h.mode.String(), Choices: map[string]int64{}}
+	c := Candidate{Harness: st.h.Name, Prop: st.h.Prop, Label: label, Kind: kind, Mode: st.h.mode.String(), Choices: map[string]int64{},
+		Abstract: len(st.h.stubs) > 0 || st.usedUF}
 	for k, v := range st.choices {
 		c.Choices[k] = v
 	}
